@@ -1,4 +1,5 @@
 //! pfsim — deterministic simulation harness for pickle-fuzzer (see /verif/DESIGN.md)
+#![allow(dead_code)]
 
 mod cli;
 mod comp;
